@@ -5,7 +5,7 @@ Each patch is applied to the scratch worktree /tmp/mrepo (reset to /repo HEAD fi
 its property (and optionally others, -a) is run with -repo /tmp/mrepo, and the verdict printed."""
 import json, subprocess, sys, os, glob, tempfile, shutil
 ROOT = os.path.dirname(os.path.dirname(os.path.abspath(__file__)))
-SCR = "/tmp/mrepo"
+SCR = os.environ.get("VERIF_SCR", "/tmp/mrepo")
 def sh(cmd):
     return subprocess.run(cmd, shell=True, capture_output=True, text=True)
 def reset():
